@@ -177,8 +177,8 @@ func ruleRenderStores(c *Ctx) []Obligation {
 	g := c.CG()
 	reg := c.registerFn()
 	var entries []*ssa.Function
-	entries = append(entries, c.codeImpls("render")...)
-	entries = append(entries, c.codeImpls("isNull")...)
+	entries = append(entries, c.codeImpls(c.renderName())...)
+	entries = append(entries, c.codeImpls(c.nullName())...)
 	entries = append(entries, c.productionEntryPoints()...)
 	for _, n := range []string{"renderImports", "GoString"} {
 		for _, t := range []string{"File", "Group", "Statement"} {
@@ -324,6 +324,48 @@ func ruleImportsWriters(c *Ctx) []Obligation {
 				case field == "hints":
 					ok := hintSetters[w.fn.Name()] && w.fn.Signature.Recv() != nil
 					o.req(ok, fn, construct, w.in.Pos(), "File.hints may only be updated by ImportName / ImportNames / ImportAlias")
+					if !ok {
+						break
+					}
+					// the hint stored is exactly what the caller said: {name, alias iff ImportAlias}, under the caller's path
+					fs, okLit := a.structLit(mu.Value)
+					wantAlias := w.fn.Name() == "ImportAlias"
+					al, isC := constBool(fs["alias"])
+					if fs["alias"] == nil {
+						al, isC = false, true
+					}
+					var wantKey, wantName ssa.Value
+					if w.fn.Name() == "ImportNames" {
+						for _, ml := range mapLoops(w.fn) {
+							if ml.blocks[w.in.Block()] {
+								wantKey, wantName = ml.key, ml.val
+							}
+						}
+					} else if len(w.fn.Params) == 3 {
+						wantKey, wantName = w.fn.Params[1], w.fn.Params[2]
+					}
+					shape := okLit && isC && al == wantAlias && wantKey != nil && stripConv(mu.Key) == wantKey && fs["name"] != nil && stripConv(fs["name"]) == wantName
+					o.req(shape, fn, construct+" stores the caller's name under the caller's path, flagged alias exactly for ImportAlias", w.in.Pos(),
+						"stored {name: %s, alias: %s} under %s on every path — an alias recorded as a plain name is printed without alias in the import block while the body still uses it", a.Desc(fs["name"]), a.Desc(fs["alias"]), a.Desc(mu.Key))
+					// unconditional: the update lies on every path (for the loop form: every iteration)
+					uncond := true
+					if w.fn.Name() != "ImportNames" {
+						for _, r := range a.returns() {
+							if !(w.in.Block() == r.Block() || w.in.Block().Dominates(r.Block())) {
+								uncond = false
+							}
+						}
+						n := 0
+						for _, w2 := range ws {
+							if w2.fn == w.fn && w2.kind == "mapupdate" {
+								n++
+							}
+						}
+						if n != 1 {
+							uncond = false
+						}
+					}
+					o.req(uncond, fn, construct+" happens exactly once, unconditionally", w.in.Pos(), "a hint that is recorded only for some inputs (or in different shapes on different paths) changes the meaning of the same call")
 				}
 			}
 		}
@@ -351,12 +393,12 @@ func ruleRegisterCallers(c *Ctx) []Obligation {
 			}
 			okArg := strings.Contains(arg, ".content")
 			isRender := false
-			for _, r := range c.codeImpls("render") {
+			for _, r := range c.codeImpls(c.renderName()) {
 				if r == f {
 					isRender = true
 				}
 			}
-			isItems := len(a.invokes("render")) > 0 && len(a.invokes("isNull")) > 0 // the list renderer
+			isItems := len(a.invokes(a.c.renderName())) > 0 && len(a.invokes(a.c.nullName())) > 0 // the list renderer
 			okCaller := (isRender && f.Signature.Recv() != nil && types.TypeString(f.Signature.Recv().Type(), shortQual) == "jen.token") || isItems
 			o.req(okTok && okArg && okCaller, fname(f), "call of registration function", ci.Pos(),
 				"registration must happen only while a package token is being rendered (token.render) or pre-registered by the list renderer; facts=%s arg=%s", facts, arg)
@@ -382,7 +424,7 @@ func ruleIsNullPure(c *Ctx) []Obligation {
 	o := c.newObs("W-ISNULL-PURE")
 	g := c.CG()
 	reg := c.registerFn()
-	for _, f := range c.codeImpls("isNull") {
+	for _, f := range c.codeImpls(c.nullName()) {
 		if f.Synthetic != "" && g.Sum[f] == nil {
 			continue
 		}
@@ -847,6 +889,20 @@ func ruleFSEffects(c *Ctx) []Obligation {
 			}
 			nfs++
 			construct := "file-system call " + sc.String()
+			if sc.String() == "os.OpenFile" {
+				// opening the target for writing must truncate it (or refuse to reuse it)
+				if fl, ok := constInt(ci.Common().Args[1]); ok {
+					const oWRONLY, oRDWR, oAPPEND, oCREATE, oEXCL, oTRUNC = 0x1, 0x2, 0x400, 0x40, 0x80, 0x200
+					writes := fl&(oWRONLY|oRDWR) != 0
+					okFl := !writes || fl&(oTRUNC|oEXCL) != 0
+					if fl&oAPPEND != 0 {
+						okFl = false
+					}
+					o.req(okFl, fname(f), construct+" truncates the target", ci.Pos(), "flags %#x: without O_TRUNC (or O_EXCL) the tail of a longer existing file survives — the saved file is not exactly the rendered output", fl)
+				} else {
+					o.undecided(fname(f), construct+" truncates the target", ci.Pos(), "flags are not constant")
+				}
+			}
 			if f != save {
 				o.add(Violated, fname(f), construct, ci.Pos(), true, "file-system mutation outside File.Save")
 				continue
@@ -1012,7 +1068,7 @@ func ruleCallback(c *Ctx) []Obligation {
 		o.add(Violated, fname(p.f), key, p.pos, true, "callback handed to %s which does not invoke it exactly once", fname(p.to))
 	}
 	// render-time: no function value is called
-	for _, e := range append(c.codeImpls("render"), c.codeImpls("isNull")...) {
+	for _, e := range append(c.codeImpls(c.renderName()), c.codeImpls(c.nullName())...) {
 		if g.Sum[e] == nil {
 			continue
 		}
@@ -1028,7 +1084,7 @@ func rulePanics(c *Ctx) []Obligation {
 	g := c.CG()
 	seen := map[string]bool{}
 	tokRender := ""
-	for _, f := range c.codeImpls("render") {
+	for _, f := range c.codeImpls(c.renderName()) {
 		if f.Signature.Recv() != nil && types.TypeString(f.Signature.Recv().Type(), shortQual) == "jen.token" && f.Synthetic == "" {
 			tokRender = fname(f)
 		}
